@@ -51,6 +51,7 @@ fn blocks_now() -> u64 {
 /// Releases an owner of object `o`; if it is the last one `Desync::drop` runs here and is stamped.
 pub fn release(o: usize, arc: Arc<Desync<Val>>) {
     if Arc::strong_count(&arc) == 1 {
+        cover_at(|c| &mut c.at_owner_drop, o);
         let s = ev("drop_inv", o as i64, 0);
         let pool = is_pool_task();
         {
@@ -94,6 +95,26 @@ fn call_begin(id: u32) -> u64 {
     let b = blocks_now();
     let s = ev("inv", id as i64, 0);
     let me = me();
+    {
+        let (kind, o) = { let r = &w().ops[id as usize]; (r.kind, r.obj) };
+        if let Some(o) = o {
+            let f: Option<fn(&mut Cover) -> &mut [u64; 8]> = match kind {
+                Kind::Desync => Some(|c| &mut c.at_desync),
+                Kind::Sync => Some(|c| &mut c.at_sync),
+                Kind::TrySync => Some(|c| &mut c.at_try_sync),
+                Kind::FutureDesync => Some(|c| &mut c.at_future_desync),
+                Kind::After => Some(|c| &mut c.at_after),
+                Kind::FutureSync => Some(|c| &mut c.at_future_sync),
+                Kind::Suspend => Some(|c| &mut c.at_suspend),
+                Kind::PipeIn => Some(|c| &mut c.at_pipe_in),
+                Kind::Pipe => Some(|c| &mut c.at_pipe),
+                Kind::Other => None,
+            };
+            if let Some(f) = f {
+                cover_at(f, o);
+            }
+        }
+    }
     let r = &mut w().ops[id as usize];
     r.inv = Some(s);
     r.thread = Some(me);
@@ -540,6 +561,7 @@ fn resolve(h: usize, v: Result<u64, Canceled>) {
 }
 
 fn poll_stamp(h: usize) {
+    cover_at(|c| &mut c.at_poll, keep_obj(h));
     let s = ev("poll", h as i64, 0);
     let r = &mut w().hrec[h];
     r.polls += 1;
@@ -549,6 +571,9 @@ fn poll_stamp(h: usize) {
 }
 
 fn handle_dropped(h: usize) {
+    if w().hrec[h].resolved_at.is_none() && w().hrec[h].op.is_some() {
+        cover_at(|c| &mut c.at_handle_drop, keep_obj(h));
+    }
     let s = ev("handle_dropped", h as i64, 0);
     let world = w();
     let r = &mut world.hrec[h];
@@ -724,6 +749,7 @@ pub fn drop_handle(h: usize) {
         }
         HandleSlot::Resumer(r) => {
             let o = keep_obj(h);
+            cover_at(|c| &mut c.at_resume, o);
             let s = ev("resumed", o as i64, 1);
             w().objs[o].resumed_at.get_or_insert(s);
             w().hrec[h].resumed_at.get_or_insert(s);
@@ -988,6 +1014,7 @@ pub fn exec_op(op: &Op) {
             match take_handle(h) {
                 HandleSlot::Sched(f) => {
                     poll_stamp(h);
+                    cover_at(|c| &mut c.at_sync_wait, keep_obj(h));
                     let s0 = ev("sync_wait_begin", h as i64, 0);
                     w().hrec[h].awaiting = Some(me());
                     w().hrec[h].await_started = Some(s0);
@@ -1037,6 +1064,7 @@ pub fn exec_op(op: &Op) {
             match take_handle(h) {
                 HandleSlot::Resumer(r) => {
                     let o = keep_obj(h);
+                    cover_at(|c| &mut c.at_resume, o);
                     let s = ev("resumed", o as i64, 0);
                     w().objs[o].resumed_at.get_or_insert(s);
             w().hrec[h].resumed_at.get_or_insert(s);
